@@ -491,6 +491,32 @@ func (e *vmEnvironment) loadDesugaredElaboration(location common.Location) (*com
 	return program.compiledProgram.desugaredElaboration, nil
 }
 
+// loadDesugaredElaborationForTypeLoading returns the elaboration of the program at the given location,
+// for the purpose of loading a type declared in it.
+//
+// If there is no location, or no program at the location,
+// nil is returned, and the type is reported as not found.
+//
+// If loading the program fails, e.g. because the embedder failed to provide it,
+// the failure is propagated, just like when importing the program (see importProgram).
+// It must not be reported as a type that does not exist.
+func (e *vmEnvironment) loadDesugaredElaborationForTypeLoading(location common.Location) *compiler.DesugaredElaboration {
+	if location == nil {
+		return nil
+	}
+
+	program, err := e.loadProgram(location)
+	if err != nil {
+		panic(err)
+	}
+
+	if program == nil {
+		return nil
+	}
+
+	return program.compiledProgram.desugaredElaboration
+}
+
 func (e *vmEnvironment) loadCompositeType(location common.Location, typeID interpreter.TypeID) *sema.CompositeType {
 	ty := e.allDeclaredTypes[typeID]
 	if ty != nil {
@@ -501,8 +527,8 @@ func (e *vmEnvironment) loadCompositeType(location common.Location, typeID inter
 		return stdlib.FlowEventTypes[typeID]
 	}
 
-	elaboration, err := e.loadDesugaredElaboration(location)
-	if err != nil {
+	elaboration := e.loadDesugaredElaborationForTypeLoading(location)
+	if elaboration == nil {
 		return nil
 	}
 
@@ -520,8 +546,8 @@ func (e *vmEnvironment) loadInterfaceType(location common.Location, typeID inter
 		return ty.(*sema.InterfaceType)
 	}
 
-	elaboration, err := e.loadDesugaredElaboration(location)
-	if err != nil {
+	elaboration := e.loadDesugaredElaborationForTypeLoading(location)
+	if elaboration == nil {
 		return nil
 	}
 
@@ -539,8 +565,8 @@ func (e *vmEnvironment) loadEntitlementType(location common.Location, typeID int
 		return ty.(*sema.EntitlementType)
 	}
 
-	elaboration, err := e.loadDesugaredElaboration(location)
-	if err != nil {
+	elaboration := e.loadDesugaredElaborationForTypeLoading(location)
+	if elaboration == nil {
 		return nil
 	}
 
@@ -558,8 +584,8 @@ func (e *vmEnvironment) loadEntitlementMapType(location common.Location, typeID 
 		return ty.(*sema.EntitlementMapType)
 	}
 
-	elaboration, err := e.loadDesugaredElaboration(location)
-	if err != nil {
+	elaboration := e.loadDesugaredElaborationForTypeLoading(location)
+	if elaboration == nil {
 		return nil
 	}
 
